@@ -30,7 +30,7 @@ class Config:
         self.validator = validator
         self.code = code
         self.attrs = attrs
-        self.mode = mode            # 'trim' | 'group' | 'plain'
+        self.mode = mode            # 'trim' | 'group' | 'group-suffix' | 'plain'
         self.rule = rule            # 'asc' | 'desc' | 'unique' | ('pattern', name)
         self.key_alphabet = key_alphabet
         self.inner_alphabet = inner_alphabet
@@ -65,6 +65,9 @@ def make_line(I, cfg, tag, spec):
     off = len(bs)
     key = [I.fresh_byte('%s_k%d' % (tag, i), cfg.key_alphabet) for i in range(klen)]
     bs += key
+    if cfg.mode == 'group-suffix':
+        # the match goes on after the group with text that varies from line to line: `KEY=c` / `KEY=d`
+        bs += [61, I.fresh_byte('%s_s' % tag, [99, 100])]
     bs += [I.fresh_byte('%s_t%d' % (tag, i), trail_alpha) for i in range(trail)]
     return tuple(bs), tuple(key), off
 
@@ -244,6 +247,9 @@ def observe(binary, src, code):
     return out
 
 
+RUST_WS = ' \t\x0b\x0c\r'      # char::is_whitespace below U+0080 (line breaks aside)
+
+
 def ref_expected(src, code):
     """Independent reference on concrete text (Python re as the regex engine); all blocks of the file."""
     s = src.decode('latin1')
@@ -276,9 +282,9 @@ def _ref_block(s, m, code):
                 a, e = mm.span('value') if 'value' in mm.groupdict() else mm.span()
                 keys.append((ln[a:e], off + a, off + e - 1))
         else:
-            t = ln.strip(' \t')
+            t = ln.strip(RUST_WS)
             if t:
-                a = off + (len(ln) - len(ln.lstrip(' \t')))
+                a = off + (len(ln) - len(ln.lstrip(RUST_WS)))
                 keys.append((t, a, a + len(t) - 1))
         off += len(ln) + 1
     desc = attrs.get('keep-sorted', '').strip().lower() == 'desc'
